@@ -73,13 +73,19 @@ type tcase struct {
 	Variant string
 	Ready   bool
 	// thorough tier, variant "allowed-key-one-byte-changed": which byte of which signature field
-	Field string // "sign" | "key"
+	Field string // "sign" | "key"; for variant "allowed-key-field-changed": path of the body leaf field
 	Pos   int
 	Mask  byte
+	// variant "allowed-key-field-changed" (every leaf field of the request body x every mutation,
+	// applied after signing with the allowed key)
+	Op string // change | set | clear | append | replace-element | drop-element
 }
 
 func (c tcase) String() string {
 	s := fmt.Sprintf("%s.%s variant=%s ready=%v", c.Server, c.Method, c.Variant, c.Ready)
+	if c.Op != "" {
+		return s + fmt.Sprintf(" field=%s mutation=%s", c.Field, c.Op)
+	}
 	if c.Field != "" {
 		s += fmt.Sprintf(" %s[%d]^=%#x", c.Field, c.Pos, c.Mask)
 	}
@@ -298,6 +304,118 @@ func mutateBody(body proto.Message) bool {
 	return false
 }
 
+// fieldMutation is one change of one leaf field of a request body.
+type fieldMutation struct {
+	Path  string // dotted proto field names from the body
+	Op    string
+	apply func()
+}
+
+func changedScalar(fd protoreflect.FieldDescriptor, v protoreflect.Value) (protoreflect.Value, bool) {
+	switch fd.Kind() {
+	case protoreflect.BytesKind:
+		return protoreflect.ValueOfBytes(append(append([]byte(nil), v.Bytes()...), 'x')), true
+	case protoreflect.StringKind:
+		return protoreflect.ValueOfString(v.String() + "x"), true
+	case protoreflect.EnumKind:
+		return protoreflect.ValueOfEnum(v.Enum() + 1), true
+	case protoreflect.BoolKind:
+		return protoreflect.ValueOfBool(!v.Bool()), true
+	case protoreflect.Uint32Kind, protoreflect.Fixed32Kind:
+		return protoreflect.ValueOfUint32(uint32(v.Uint()) + 1), true
+	case protoreflect.Uint64Kind, protoreflect.Fixed64Kind:
+		return protoreflect.ValueOfUint64(v.Uint() + 1), true
+	case protoreflect.Int32Kind, protoreflect.Sint32Kind, protoreflect.Sfixed32Kind:
+		return protoreflect.ValueOfInt32(int32(v.Int()) + 1), true
+	case protoreflect.Int64Kind, protoreflect.Sint64Kind, protoreflect.Sfixed64Kind:
+		return protoreflect.ValueOfInt64(v.Int() + 1), true
+	case protoreflect.FloatKind:
+		return protoreflect.ValueOfFloat32(float32(v.Float()) + 1), true
+	case protoreflect.DoubleKind:
+		return protoreflect.ValueOfFloat64(v.Float() + 1), true
+	}
+	return protoreflect.Value{}, false
+}
+
+// fieldMutations enumerates, for every leaf field reachable from m (nested messages are walked,
+// unset ones are created), every mutation of the class: scalar/bytes/string: change the value (or
+// set it when unset) and clear it when set; repeated: append an element, and when non-empty replace
+// an element and drop an element. unsupported collects field kinds the walker cannot mutate.
+func fieldMutations(m protoreflect.Message, prefix string, unsupported *[]string) []fieldMutation {
+	var res []fieldMutation
+	fds := m.Descriptor().Fields()
+	for i := 0; i < fds.Len(); i++ {
+		fd := fds.Get(i)
+		path := prefix + string(fd.Name())
+		switch {
+		case fd.IsMap():
+			*unsupported = append(*unsupported, path+" (map)")
+		case fd.IsList():
+			if fd.Kind() == protoreflect.MessageKind || fd.Kind() == protoreflect.GroupKind {
+				res = append(res, fieldMutation{path, "append", func() { l := m.Mutable(fd).List(); l.Append(l.NewElement()) }})
+				if l := m.Get(fd).List(); l.Len() > 0 {
+					res = append(res, fieldMutation{path, "drop-element", func() { l := m.Mutable(fd).List(); l.Truncate(l.Len() - 1) }})
+					res = append(res, fieldMutations(m.Mutable(fd).List().Get(0).Message(), path+"[0].", unsupported)...)
+				}
+				continue
+			}
+			zero := m.NewField(fd).List().NewElement()
+			nv, ok := changedScalar(fd, zero)
+			if !ok {
+				*unsupported = append(*unsupported, path+" (repeated "+fd.Kind().String()+")")
+				continue
+			}
+			res = append(res, fieldMutation{path, "append", func() { m.Mutable(fd).List().Append(nv) }})
+			if m.Get(fd).List().Len() > 0 {
+				res = append(res, fieldMutation{path, "replace-element", func() {
+					l := m.Mutable(fd).List()
+					v, _ := changedScalar(fd, l.Get(0))
+					l.Set(0, v)
+				}})
+				res = append(res, fieldMutation{path, "drop-element", func() { l := m.Mutable(fd).List(); l.Truncate(l.Len() - 1) }})
+			}
+		case fd.Kind() == protoreflect.MessageKind || fd.Kind() == protoreflect.GroupKind:
+			if !m.Has(fd) {
+				res = append(res, fieldMutation{path, "set", func() { m.Mutable(fd) }})
+			} else {
+				res = append(res, fieldMutation{path, "clear", func() { m.Clear(fd) }})
+			}
+			res = append(res, fieldMutations(m.Mutable(fd).Message(), path+".", unsupported)...)
+			if !m.Has(fd) {
+				// walking created it only to enumerate its leaves; the mutations re-create it when applied
+			}
+		default:
+			if _, ok := changedScalar(fd, m.Get(fd)); !ok {
+				*unsupported = append(*unsupported, path+" ("+fd.Kind().String()+")")
+				continue
+			}
+			if m.Has(fd) {
+				res = append(res, fieldMutation{path, "change", func() { v, _ := changedScalar(fd, m.Get(fd)); m.Set(fd, v) }})
+				res = append(res, fieldMutation{path, "clear", func() { m.Clear(fd) }})
+			} else {
+				res = append(res, fieldMutation{path, "set", func() { v, _ := changedScalar(fd, m.Get(fd)); m.Set(fd, v) }})
+			}
+		}
+	}
+	return res
+}
+
+// sampleBody returns the filled body message of a method's request (placeholder values with the
+// same structure as the real ones) for enumerating its field mutations.
+func sampleBody(sig sw.Signature) (proto.Message, error) {
+	bf, ok := sig.Req.Elem().FieldByName("Body")
+	if !ok {
+		return nil, fmt.Errorf("request type %v has no Body field", sig.Req)
+	}
+	body := reflect.New(bf.Type.Elem())
+	fillBody(body, []byte("0123456789abcdef"), "cid/oid", "/nonexistent", "sample")
+	pm, ok := body.Interface().(proto.Message)
+	if !ok {
+		return nil, fmt.Errorf("body of %v is not a protobuf message", sig.Req)
+	}
+	return pm, nil
+}
+
 type signedMessage interface {
 	ReadSignedData([]byte) ([]byte, error)
 }
@@ -340,6 +458,17 @@ func buildRequest(c tcase, sig sw.Signature, ownKeyLabel string, shardID []byte,
 			b := append([]byte(nil), *s...)
 			b[len(b)/2] ^= 0x04
 			*s = b
+		}
+	case "allowed-key-field-changed":
+		if err = sign(adminKey); err == nil {
+			var unsup []string
+			for _, fm := range fieldMutations(body.Interface().(proto.Message).ProtoReflect(), "", &unsup) {
+				if fm.Path == c.Field && fm.Op == c.Op {
+					fm.apply()
+					return req, true, nil
+				}
+			}
+			return req, false, fmt.Errorf("%s: mutation %s of field %s does not exist for the built request", c.Method, c.Op, c.Field)
 		}
 	case "allowed-key-one-byte-changed":
 		if err = sign(adminKey); err == nil {
@@ -487,6 +616,9 @@ func main() {
 		desc := fmt.Sprintf("%s -> %s %q responses=%d effects=%v treeDiff=%v modes=%q shardErrorCounter+=%d",
 			c, o.Code, o.Detail, o.Resp, o.Effects, o.TreeDiff, o.Modes, o.ErrDelta)
 		key := c.Server + "." + c.Method + ":" + c.Variant
+		if c.Op != "" {
+			key += ":" + c.Field + ":" + c.Op
+		}
 		// the IR server documents its own key as part of the white list; the storage node does not
 		authorised := c.Variant == "correct" || c.Variant == "server-own-key" && c.Server == "ir"
 		if authorised {
@@ -552,6 +684,42 @@ func main() {
 			cases = append(cases, tcase{Server: "ir", Method: m, Variant: v, Ready: true})
 		}
 	}
+	// every leaf field of every request body x every mutation of the class, after signing
+	fieldCases := map[string][]string{} // server.method -> "field:op" list
+	var noBodyFields []string
+	addFieldCases := func(server string, iface reflect.Type, m string) {
+		body, err := sampleBody(sw.SignatureOf(iface, m))
+		if err != nil {
+			fatal("%s.%s: %v", server, m, err)
+		}
+		var unsup []string
+		muts := fieldMutations(body.ProtoReflect(), "", &unsup)
+		if len(unsup) > 0 {
+			fatal("%s.%s: request body has fields the mutation walker does not support: %v", server, m, unsup)
+		}
+		if body.ProtoReflect().Descriptor().Fields().Len() == 0 {
+			noBodyFields = append(noBodyFields, server+"."+m)
+		}
+		for _, fm := range muts {
+			cases = append(cases, tcase{Server: server, Method: m, Variant: "allowed-key-field-changed", Ready: true, Field: fm.Path, Op: fm.Op})
+			fieldCases[server+"."+m] = append(fieldCases[server+"."+m], fm.Path+":"+fm.Op)
+		}
+	}
+	for _, m := range snMethods {
+		addFieldCases("storage", snIface, m)
+	}
+	for _, m := range irMethods {
+		addFieldCases("ir", irIface, m)
+	}
+	nFieldCases := 0
+	for _, v := range fieldCases {
+		nFieldCases += len(v)
+	}
+	sort.Strings(noBodyFields)
+	r.Set("field_mutation_cases", nFieldCases)
+	r.Set("field_mutations_per_method", fieldCases)
+	r.Set("requests_without_any_body_field", noBodyFields)
+
 	if r.Thorough() {
 		// exhaustive single-byte deviation of the correct request's signature value (65 bytes) and key (33 bytes)
 		add := func(server, m string) {
@@ -599,7 +767,7 @@ func main() {
 	r.Set("outcome_classes", len(classes))
 	r.Set("outcome_class_counts", classes)
 	r.Set("authorised_variants", passed)
-	r.Rule("every exported method of both ControlServiceServer interfaces (reflection) x 7 signature variants x readiness {ready, not ready} (storage node); request bodies built generically by field name/type; non-trivial = an unauthorised variant that was rejected with zero effects, or an authorised variant that passed the gate; distinct = distinct case tuple")
+	r.Rule("every exported method of both ControlServiceServer interfaces (reflection) x 7 signature variants x readiness {ready, not ready} (storage node), plus, for every method, every leaf field of the request body (walked through the protobuf descriptor, nested and repeated fields included) x every mutation of the class {change / set-when-unset / clear; repeated: append, replace-element, drop-element} applied after signing with the allowed key; request bodies built generically by field name/type; non-trivial = an unauthorised variant that was rejected with zero effects, or an authorised variant that passed the gate; distinct = distinct case tuple")
 	r.Assume("effects are observed at the engine method entries (overlay hook, pure recorder), the replication transport / client constructor, NodeState and NotaryManager calls, as byte-level changes of the engine and scratch directories, and as shard mode / error counter changes",
 		"health status reads are not side effects (recorded, not required to be absent)",
 		"the inner ring server's own key is part of its white list by its documented constructor contract; the storage node's own key is not",
